@@ -1,5 +1,5 @@
 CONFIG = {
-    'subs': ['Parse'],
+    'subs': ['Parse', 'StrToNum'],
     'props_modules': ['DmlcModel.Props.C11', 'DmlcModel.Props.C11Witness'],
     'driver': 'Parse',
     'harness': {'name': 'parsers',
